@@ -52,7 +52,9 @@ def load_harness_files():
                 props = l.split(':', 1)[1].split()
             elif l.startswith('kind:'):
                 k = l.split(':', 1)[1].strip()
-                if k.startswith('complete'):
+                if k.startswith('rustc'):
+                    kind, bound = 'rustc', k.split(':', 1)[1].strip() if ':' in k else ''
+                elif k.startswith('complete'):
                     kind, bound = 'complete', ''
                 else:
                     kind, bound = 'bounded', k.split(':', 1)[1].strip() if ':' in k else k
@@ -77,6 +79,11 @@ def prepare(scratch):
             text = open(os.path.join(VERIF, 'kani', fn)).read()
             m = re.search(r'(?m)^//! target:\s*(\S+)', text)
             if not m:
+                continue
+            if re.search(r'(?m)^//! kind:\s*rustc', text):
+                tp = os.path.join(scratch, m.group(1))
+                os.makedirs(os.path.dirname(tp), exist_ok=True)
+                open(tp, 'w').write(text)
                 continue
             files.setdefault(m.group(1), []).append((fn[:-3], text))
     for target, mods in files.items():
@@ -196,5 +203,34 @@ def replay(playback_text, harness_file, timeout=900):
             return False, 'playback timeout'
         failed = bool(re.search(r'test .*%s \.\.\. FAILED' % re.escape(name), out)) or ('panicked at' in out and 'test result: FAILED' in out)
         return failed, out[-2500:]
+    finally:
+        shutil.rmtree(scratch, ignore_errors=True)
+
+
+def run_rustc(harnesses, timeout=900):
+    """`kind: rustc` files: compile the integration test with cargo check; SUCCESS iff it type-checks."""
+    scratch = '/tmp/verif_rustc_%d' % os.getpid()
+    res = {}
+    t0 = time.time()
+    try:
+        prepare(scratch)
+        env = dict(os.environ, CARGO_NET_OFFLINE='true', CARGO_TARGET_DIR=TARGET_CACHE + '_check')
+        for h in harnesses:
+            test = os.path.basename(h.target)[:-3]
+            t1 = time.time()
+            try:
+                p = subprocess.run(['cargo', 'check', '--offline', '-p', 'vibrato', '--test', test], cwd=scratch,
+                                   capture_output=True, text=True, timeout=timeout, env=env)
+                out = p.stdout + p.stderr
+                errs = re.findall(r'(?m)^error(?:\[E\d+\])?: (.*)$', out)
+                st = 'SUCCESS' if p.returncode == 0 else 'FAILURE'
+                # only auto-trait failures are counterexamples; any other build error is undecided
+                if st == 'FAILURE' and not any('cannot be shared between threads' in e or 'cannot be sent between threads' in e for e in errs):
+                    st = 'ERROR'
+            except subprocess.TimeoutExpired:
+                out, errs, st = 'timeout', [], 'ERROR'
+            res[h.name] = {'status': st, 'failed_checks': errs[:5], 'time_s': round(time.time() - t1, 1), 'checks': 3,
+                           'playback': '', 'full_name': h.name, 'log': out[-2500:]}
+        return res, time.time() - t0
     finally:
         shutil.rmtree(scratch, ignore_errors=True)
